@@ -402,9 +402,14 @@ def price_block(rng, life):
         c.append(['Production Tax Credit Cooling', _round(rng.uniform(0.5, 10), 3)])
     if any(k.startswith('Production Tax Credit') for k, _ in c):
         c.append(['Production Tax Credit Duration', draw_small_int(rng, 0, min(99, life))])
-        if rng.random() < 0.5:
+        r = rng.random()
+        if r < 0.45:
             c.append(['Production Tax Credit Inflation Adjusted', 'True'])
             c.append(['Inflation Rate', _round(rng.uniform(0.0, 0.06), 3)])
+        elif r < 0.7:
+            # the flag written out as False (present in the file, but off) with a non-zero inflation rate
+            c.append(['Production Tax Credit Inflation Adjusted', 'False'])
+            c.append(['Inflation Rate', _round(rng.uniform(0.01, 0.06), 3)])
     if rng.random() < 0.2:
         c += [['Do Carbon Price Calculations', 'True'],
               ['Starting Carbon Credit Value', _round(rng.uniform(0, 0.05), 4)],
